@@ -174,6 +174,7 @@ struct MemInfo {
 struct TableInfo {
     elem: VT,
     min: u64,
+    is64: bool,
 }
 #[derive(Clone, Debug)]
 struct GlobalInfo {
@@ -407,7 +408,8 @@ impl<'a, 'b> FnCtx<'a, 'b> {
                         self.const_of(rng, ty);
                     } else {
                         let t = *rng.pick(&ts);
-                        self.expr(rng, VT::I32, d);
+                        let ix = self.tix(t);
+                        self.expr(rng, ix, d);
                         self.emit(I::TableGet(t));
                     }
                 } else if choice < 80 {
@@ -552,8 +554,9 @@ impl<'a, 'b> FnCtx<'a, 'b> {
                 } else if k == 1 && !mems32.is_empty() {
                     self.expr(rng, VT::I32, d);
                     self.emit(I::MemoryGrow(*rng.pick(&mems32)));
-                } else if k == 2 && self.c.cfg.ref_types && !self.c.tables.is_empty() {
-                    self.emit(I::TableSize(rng.below(self.c.tables.len() as u64) as u32));
+                } else if k == 2 && self.c.cfg.ref_types && self.c.tables.iter().any(|t| !t.is64) {
+                    let ts: Vec<u32> = (0..self.c.tables.len() as u32).filter(|&i| !self.c.tables[i as usize].is64).collect();
+                    self.emit(I::TableSize(*rng.pick(&ts)));
                 } else if k == 3 && self.c.cfg.ref_types {
                     let t = *rng.pick(&[VT::FuncRef, VT::ExternRef]);
                     self.expr(rng, t, d);
@@ -643,7 +646,8 @@ impl<'a, 'b> FnCtx<'a, 'b> {
             if t != 0 && !self.c.cfg.ref_types {
                 self.emit(I::Call(f));
             } else {
-                self.expr(rng, VT::I32, d);
+                let ix = self.tix(t);
+                self.expr(rng, ix, d);
                 self.emit(I::CallIndirect { type_index: tyidx, table_index: t });
             }
         } else {
@@ -696,6 +700,11 @@ impl<'a, 'b> FnCtx<'a, 'b> {
                 self.emit(I::End);
             }
         }
+    }
+
+    /// the index type of table `t`
+    fn tix(&self, t: u32) -> VT {
+        if self.c.tables[t as usize].is64 { VT::I64 } else { VT::I32 }
     }
 
     fn dead_code(&mut self, rng: &mut Rng, d: usize) {
@@ -895,30 +904,33 @@ impl<'a, 'b> FnCtx<'a, 'b> {
         } else if choice < 88 && self.c.cfg.ref_types && !self.c.tables.is_empty() {
             let t = rng.below(self.c.tables.len() as u64) as u32;
             let et = self.c.tables[t as usize].elem;
+            let ix = self.tix(t);
             match rng.below(5) {
                 0 => {
-                    self.expr(rng, VT::I32, d);
+                    self.expr(rng, ix, d);
                     self.expr(rng, et, d);
                     self.emit(I::TableSet(t));
                 }
                 1 => {
                     self.expr(rng, et, d);
-                    self.expr(rng, VT::I32, d);
+                    self.expr(rng, ix, d);
                     self.emit(I::TableGrow(t));
                     self.emit(I::Drop);
                 }
                 2 if self.c.cfg.bulk => {
-                    self.expr(rng, VT::I32, d);
+                    self.expr(rng, ix, d);
                     self.expr(rng, et, d);
-                    self.expr(rng, VT::I32, d);
+                    self.expr(rng, ix, d);
                     self.emit(I::TableFill(t));
                 }
                 3 if self.c.cfg.bulk => {
                     let same: Vec<u32> = (0..self.c.tables.len() as u32).filter(|&i| self.c.tables[i as usize].elem == et).collect();
                     let t2 = *rng.pick(&same);
-                    self.expr(rng, VT::I32, d);
-                    self.expr(rng, VT::I32, d);
-                    self.expr(rng, VT::I32, d);
+                    let ix2 = self.tix(t2);
+                    // destination index, source index, length (64-bit only when both tables are)
+                    self.expr(rng, ix, d);
+                    self.expr(rng, ix2, d);
+                    self.expr(rng, if ix == VT::I64 && ix2 == VT::I64 { VT::I64 } else { VT::I32 }, d);
                     self.emit(I::TableCopy { src_table: t2, dst_table: t });
                 }
                 _ if self.c.cfg.bulk => {
@@ -928,7 +940,7 @@ impl<'a, 'b> FnCtx<'a, 'b> {
                     } else {
                         let e = *rng.pick(&segs);
                         if rng.chance(1, 2) {
-                            self.expr(rng, VT::I32, d);
+                            self.expr(rng, ix, d);
                             self.expr(rng, VT::I32, d);
                             self.expr(rng, VT::I32, d);
                             self.emit(I::TableInit { elem_index: e, table: t });
@@ -971,8 +983,10 @@ impl<'a, 'b> FnCtx<'a, 'b> {
                 self.call_args(rng, &params, d);
                 let ftables: Vec<u32> = (0..self.c.tables.len() as u32).filter(|&i| self.c.tables[i as usize].elem == VT::FuncRef).collect();
                 if !ftables.is_empty() && rng.chance(1, 2) {
-                    self.expr(rng, VT::I32, d);
-                    self.emit(I::ReturnCallIndirect { type_index: tyidx, table_index: *rng.pick(&ftables) });
+                    let t = *rng.pick(&ftables);
+                    let ix = self.tix(t);
+                    self.expr(rng, ix, d);
+                    self.emit(I::ReturnCallIndirect { type_index: tyidx, table_index: t });
                 } else {
                     self.emit(I::ReturnCall(f));
                 }
@@ -1101,8 +1115,9 @@ pub fn gen_module(rng: &mut Rng, cfg: &GenCfg) -> Generated {
                 let elem = if cfg.ref_types && rng.chance(1, 3) { VT::ExternRef } else { VT::FuncRef };
                 let min = if cfg.instantiable { rng.range(2, 5) } else { rng.below(5) };
                 let max = if rng.chance(1, 2) { Some(min + rng.below(5)) } else { None };
-                imports.import(&module, &field, EntityType::Table(TableType { element_type: elem.reft(), table64: false, minimum: min, maximum: max, shared: false }));
-                tables.push(TableInfo { elem, min });
+                let is64 = cfg.memory64 && cfg.ref_types && rng.chance(1, 4);
+                imports.import(&module, &field, EntityType::Table(TableType { element_type: elem.reft(), table64: is64, minimum: min, maximum: max, shared: false }));
+                tables.push(TableInfo { elem, min, is64 });
             }
             2 => {
                 if !mems.is_empty() && !cfg.multi_memory {
@@ -1150,13 +1165,14 @@ pub fn gen_module(rng: &mut Rng, cfg: &GenCfg) -> Generated {
         let elem = if cfg.ref_types && rng.chance(1, 3) { VT::ExternRef } else { VT::FuncRef };
         let min = if cfg.instantiable { rng.range(2, 6) } else { rng.below(6) };
         let max = if rng.chance(1, 2) { Some(min + rng.below(5)) } else { None };
-        table_sec.table(TableType { element_type: elem.reft(), table64: false, minimum: min, maximum: max, shared: false });
-        tables.push(TableInfo { elem, min });
+        let is64 = cfg.memory64 && cfg.ref_types && rng.chance(1, 4);
+        table_sec.table(TableType { element_type: elem.reft(), table64: is64, minimum: min, maximum: max, shared: false });
+        tables.push(TableInfo { elem, min, is64 });
     }
     let mut ntables = ntables;
     if want_extern_elem && !tables.iter().any(|t| t.elem == VT::ExternRef) {
         table_sec.table(TableType { element_type: VT::ExternRef.reft(), table64: false, minimum: 4, maximum: None, shared: false });
-        tables.push(TableInfo { elem: VT::ExternRef, min: 4 });
+        tables.push(TableInfo { elem: VT::ExternRef, min: 4, is64: false });
         ntables += 1;
     }
     // ---- memories
@@ -1242,7 +1258,8 @@ pub fn gen_module(rng: &mut Rng, cfg: &GenCfg) -> Generated {
         if cfg.instantiable {
             exprs.truncate(tables[t as usize].min as usize);
         }
-        elem_sec.active(Some(t), &ConstExpr::i32_const(0), Elements::Expressions(RefType::EXTERNREF, &exprs));
+        let zero = if tables[t as usize].is64 { ConstExpr::i64_const(0) } else { ConstExpr::i32_const(0) };
+        elem_sec.active(Some(t), &zero, Elements::Expressions(RefType::EXTERNREF, &exprs));
         elem_tys.push(VT::ExternRef);
         n_elem += 1;
     }
@@ -1260,13 +1277,15 @@ pub fn gen_module(rng: &mut Rng, cfg: &GenCfg) -> Generated {
         };
         let mut nitems = rng.below(4) as usize;
         let use_exprs = cfg.ref_types && rng.chance(1, 2);
-        let offset_ty = VT::I32;
-        let mut offset = const_expr_for(rng, offset_ty, &imported_globals, &[], true);
         let t_pick = if tables.is_empty() { 0 } else { rng.below(tables.len() as u64) as u32 };
+        let t64 = mode == 0 && tables[t_pick as usize].is64;
+        let offset_ty = if t64 { VT::I64 } else { VT::I32 };
+        let mut offset = const_expr_for(rng, offset_ty, &imported_globals, &[], true);
         if cfg.instantiable && mode == 0 {
             let tmin = tables[t_pick as usize].min as usize;
             nitems = nitems.min(tmin);
-            offset = ConstExpr::i32_const(rng.below((tmin - nitems) as u64 + 1) as i32);
+            let o = rng.below((tmin - nitems) as u64 + 1);
+            offset = if t64 { ConstExpr::i64_const(o as i64) } else { ConstExpr::i32_const(o as i32) };
         }
         let fitems: Vec<u32> = (0..nitems).map(|_| rng.below(funcs.len() as u64) as u32).collect();
         if mode == 0 {
